@@ -66,7 +66,7 @@ def generate(rng, tier):
              "missing-ciphertext", "ciphertext-none", "ciphertext-bytes", "ciphertext-int", "ciphertext-list",
              "bad-base64", "bad-base64-chars", "unpadded-base64", "overpadded-base64", "base64-with-newline", "truncated-1", "truncated-block", "truncated-to-iv", "extended-1", "extended-15",
              "empty-ciphertext", "other-key", "wrong-container-list", "wrong-container-int", "wrong-container-bytes",
-             "wrong-method-for-ciphertext"]
+             "wrong-method-for-ciphertext", "non-utf8-plaintext", "non-utf8-plaintext-2"]
     import random
     det = random.Random(11)
 
@@ -197,6 +197,15 @@ def _mutate(c, stored, raw, rng_seed):
         value = c["plain"].encode() if isinstance(c["plain"], str) else b"x"
     elif k == "wrong-method-for-ciphertext":
         value["method"] = "xor" if stored["method"] == "aes" else "aes"
+    elif k in ("non-utf8-plaintext", "non-utf8-plaintext-2"):
+        # a correctly encrypted value whose plaintext bytes are not UTF-8 text (computed here, not by the library)
+        pt = b"\xff\xfe secret \x80" if k == "non-utf8-plaintext" else b"ok-prefix \xc3\x28 \xed\xa0\x80"
+        if stored["method"] == "xor":
+            ct = bytes(b ^ c["key1"][i % 32] for i, b in enumerate(pt))
+        else:
+            from s_crypto import enc_table
+            ct = enc_table(c["key1"], c["iv"], pt)[1]
+        value["ciphertext"] = base64.b64encode(ct).decode()
     return value, out
 
 
@@ -291,7 +300,7 @@ def impl(c):
 MUST_ROUNDTRIP = {"valid", "valid-other-session", "valid-other-object"}
 MUST_REJECT = {"missing-method", "none-method", "empty-method", "unknown-method", "method-not-str", "missing-ciphertext",
                "ciphertext-none", "ciphertext-bytes", "ciphertext-int", "ciphertext-list", "bad-base64-chars",
-               "wrong-container-list", "wrong-container-int", "wrong-container-bytes"}
+               "wrong-container-list", "wrong-container-int", "wrong-container-bytes", "non-utf8-plaintext", "non-utf8-plaintext-2"}
 
 
 def oracle(c, model_obs):
@@ -299,6 +308,11 @@ def oracle(c, model_obs):
     obs = c.get("_o", {}).get("out", {})
     if "setup" in obs or "result" not in obs:
         return ["%s: setup failed: %s" % (what, obs.get("setup"))]
+    if obs["usable"] and c["kind"] == "method-value" and not (type(c["arg"]) is str and c["arg"] in ("aes", "xor", "best")):
+        # "unknown methods ... are rejected with an error rather than returning a value": anything but the three names, exactly
+        if obs["result"][0] != "rejected":
+            return ["%s: the method %r is not one of aes / xor / best and was not rejected with an error: %r" % (what, c["arg"], obs["result"])]
+        return []
     if not obs["usable"] or not isinstance(c["plain"], str) or c["kind"] in ("method-value", "other-value", "junk-base64"):
         # to_basic wrote null / refused (empty value, unknown declared method, unencodable text), or the stored
         # value is one of the free-form ones: the model decides these; the property itself only demands that
